@@ -29,67 +29,146 @@ Section Composed.
   Variable sd_theta sd_period : @NM.ecost R -> @NM.ecost R -> bool.
   Local Notation KM := (oracles_of_model index_of snell_inv sd_theta sd_period).
 
-  (* over the reals the two simplex searches and the external angle are total; only the Snell inverse remains *)
-  Lemma searches_total_composed : (forall b e cs, snell_inv b e cs <> None) -> searches_total KM.
-  Proof. intros H. repeat split; intros; cbn; try discriminate. apply H. Qed.
+  (* ---- definedness, PER INPUT.  Over the reals every operation is total, but the implementation's are not: asin beyond
+     [-1, 1], sqrt of a negative number, 0/0.  The composed oracles answer None there (Model/Cfg_Composed.v), so the theorems
+     below carry, as named hypotheses about the configuration at hand, exactly what finding F7b / F7f / F7h violate. *)
+  (* the signal is not beyond total internal reflection in the crystal at its placeholder angle (needed only when the crystal
+     angle is automatic: CrystalSetup::optimum_theta starts from signal.theta_external) *)
+  Definition no_total_internal_reflection (c : spdc_cfg R) : Prop :=
+    forall signal, signal_step R_ops KM c = Ok signal -> is_auto (cc_theta_deg (c_crystal c)) = true -> c_pp c = PCOff ->
+      snell_ext_defined index_of signal (cfg_cs0 R_ops c) = true.
+  (* every candidate angle the search evaluates has a defined cost *)
+  Definition angle_search_defined (c : spdc_cfg R) : Prop :=
+    forall signal, signal_step R_ops KM c = Ok signal -> is_auto (cc_theta_deg (c_crystal c)) = true -> c_pp c = PCOff ->
+      theta_search_defined index_of snell_inv sd_theta (erase_theta R_ops (cfg_cs0 R_ops c))
+        (asin (snell_arg index_of signal (cfg_cs0 R_ops c))) signal (cfg_pump R_ops c) = true.
+  (* every candidate period the search evaluates has a defined cost (and so has the unpoled mismatch it starts from) *)
+  Definition period_search_defined_at (c : spdc_cfg R) : Prop :=
+    forall signal a, signal_step R_ops KM c = Ok signal -> c_pp c = PCConfig Auto a ->
+      period_search_defined index_of sd_period signal (cfg_pump R_ops c) (cfg_cs0 R_ops c) = true.
 
-  Lemma geometry_defined_composed : geometry_defined KM.
-  Proof. split; intros; cbn; discriminate. Qed.
+  Lemma searches_defined_composed c :
+    (forall b e cs, snell_inv b e cs <> None) ->
+    no_total_internal_reflection c -> angle_search_defined c -> period_search_defined_at c ->
+    searches_defined_at R_ops KM c.
+  Proof.
+    intros H Htir Hang Hper. split; [exact H |]. intros signal Hs. split.
+    - intros Hau Hoff. specialize (Htir signal Hs Hau Hoff). specialize (Hang signal Hs Hau Hoff).
+      cbn [o_snell_ext o_nm_theta oracles_of_model]. rewrite Htir. split; [discriminate |].
+      intros e He. inversion He. subst e. rewrite Hang. discriminate.
+    - intros a Ha. specialize (Hper signal a Hs Ha). cbn [o_nm_period oracles_of_model]. rewrite Hper. discriminate.
+  Qed.
 
-  (* C17: never panics -- NO oracle hypothesis left except totality of the Snell inverse (C13) *)
+  (* C17: never panics -- for a configuration that is not beyond total internal reflection and whose searches meet no
+     undefined cost; plus totality of the Snell inverse (C13) *)
   Theorem no_panic_composed U minpos c :
-    (forall b e cs, snell_inv b e cs <> None) -> is_panic (try_as_spdc_now R_ops U KM minpos c) = false.
-  Proof. intros H. apply now_no_panic; [exact scale_order_R | apply searches_total_composed; exact H]. Qed.
+    (forall b e cs, snell_inv b e cs <> None) ->
+    no_total_internal_reflection c -> angle_search_defined c -> period_search_defined_at c ->
+    is_panic (try_as_spdc_now R_ops U KM minpos c) = false.
+  Proof.
+    intros H Htir Hang Hper. apply now_no_panic_at; [exact scale_order_R | apply searches_defined_composed; assumption].
+  Qed.
+
+  (* ... and the hypothesis cannot be dropped: a signal beyond total internal reflection with an automatic crystal angle
+     PANICS in the composed model, as in the implementation (finding F7b; concrete witness in Findings/C17_F7b_composed.v) *)
+  Theorem tir_panics_composed U minpos c signal :
+    cfg_le R_ops c = false -> signal_step R_ops KM c = Ok signal ->
+    is_auto (cc_theta_deg (c_crystal c)) = true -> c_pp c = PCOff ->
+    snell_ext_defined index_of signal (cfg_cs0 R_ops c) = false ->
+    try_as_spdc_now R_ops U KM minpos c = Panic SiteNelderMeadUnwrap.
+  Proof.
+    intros Hle Hs Hau Hoff Hd. rewrite (now_steps R R_ops U KM minpos c Hle). unfold try_as_spdc_steps.
+    fold (signal_step R_ops KM c). rewrite Hs. cbn [bind]. unfold poling_step, poling_of_cfg. rewrite Hoff. cbn [bind fst snd].
+    unfold theta_step. rewrite Hau. cbn [is_pol_off]. unfold optimum_theta. cbn [o_snell_ext oracles_of_model]. rewrite Hd.
+    reflexivity.
+  Qed.
+
+  (* the index along z is never 0 (a property of the index function; true of every physical crystal), and the emission angle of
+     THIS configuration's optimum idler is defined *)
+  Definition idler_defined_at (minpos : R) (c : spdc_cfg R) : Prop :=
+    forall signal pp nfp cs, signal_step R_ops KM c = Ok signal ->
+      poling_step R_ops KM minpos cfg_rejects_bad_period c signal = Ok (pp, nfp) -> theta_step R_ops KM c signal pp = Ok cs ->
+      idler_defined index_of signal (cfg_pump R_ops c) cs (ipp pp) = true.
+
+  Lemma geometry_defined_composed minpos c :
+    (forall cs l pol, index_of cs l ez pol <> 0) -> idler_defined_at minpos c ->
+    geometry_defined_at R_ops KM minpos cfg_rejects_bad_period c.
+  Proof.
+    intros Hn Hi. split.
+    - intros cs l p. cbn [o_waist_pos oracles_of_model]. unfold waist_defined.
+      destruct (Req_EM_T (index_of cs l ez (ipol p)) 0) as [E | _]; [exfalso; exact (Hn _ _ _ E) | discriminate].
+    - intros signal pp nfp cs Hs Hp Ht. cbn [o_idler_theta oracles_of_model]. rewrite (Hi signal pp nfp cs Hs Hp Ht). discriminate.
+  Qed.
 
   Theorem ok_finite_or_err_composed U minpos c :
     (forall b e cs, snell_inv b e cs <> None) ->
+    no_total_internal_reflection c -> angle_search_defined c -> period_search_defined_at c ->
+    (forall cs l pol, index_of cs l ez pol <> 0) -> idler_defined_at minpos c ->
     (forall signal, signal_step R_ops KM c = Ok signal ->
        dkz_c index_of signal (cfg_pump R_ops c) (cfg_cs0 R_ops c) MI.PPOff <> 0) ->
     (exists s, try_as_spdc_now R_ops U KM minpos c = Ok (s, [])) \/ (exists e, try_as_spdc_now R_ops U KM minpos c = Err e).
   Proof.
-    intros H Hz. apply now_ok_finite_or_err; [exact scale_order_R | apply searches_total_composed; exact H | apply geometry_defined_composed |].
+    intros H Htir Hang Hper Hn Hi Hz.
+    apply now_ok_finite_or_err_at; [exact scale_order_R | apply searches_defined_composed; assumption
+                                   | apply geometry_defined_composed; assumption |].
     intros signal Hs. specialize (Hz signal Hs). cbn [o_dkz0 oracles_of_model neqb R_ops]. rewrite n0_R.
     destruct (Req_EM_T _ 0); [contradiction | reflexivity].
   Qed.
 
-  (* C20: the collinear contracts hold for the composed instance (external angle asin(n sin 0) = 0; emission angle of a collinear
-     signal: val = ns sin(theta_s) / sqrt(arg) = 0 whatever the poling) *)
+  (* C20: the contract of optimising THIS setup holds for the composed instance (external angle of a collinear signal:
+     n sin 0 = 0 is inside [-1, 1] and asin 0 does not depend on the crystal angle; emission angle of a collinear signal:
+     val = ns sin(theta_s) / sqrt(arg) = 0 whatever the poling) provided the idler's angle is DEFINED (arg > 0) under the poling
+     before and after the optimisation *)
   Lemma collinear_sin b : collinear b -> sin (b_theta b) = 0.
   Proof. intros [-> | ->]; [apply sin_0 | apply sin_PI]. Qed.
 
-  Theorem collinear_contract_composed : collinear_contract KM.
+  Definition idler_defined_before_and_after (minpos : R) (s : spdc R) : Prop :=
+    forall cs pp nfp, opt_crystal_poling R_ops KM minpos s (opt_signal R_ops s) = Ok (cs, pp, nfp) ->
+      idler_defined index_of (opt_signal R_ops s) (s_pump s) cs (ipp pp) = true /\
+      idler_defined index_of (opt_signal R_ops s) (s_pump s) cs (ipp (s_pp s)) = true.
+
+  Lemma in_unit_0 : in_unit 0 = true.
+  Proof. unfold in_unit, Rleb. destruct (Rle_dec (-1) 0), (Rle_dec 0 1); try reflexivity; exfalso; lra. Qed.
+
+  Lemma ib_sin_collinear b : collinear b -> sin (MI.b_theta (ib b)) = 0.
   Proof.
-    split.
-    - intros b cs th Hc. cbn [o_snell_ext oracles_of_model]. rewrite (collinear_sin b Hc), !Rmult_0_r. reflexivity.
-    - intros b p cs pp1 pp2 Hc. cbn [o_idler_theta oracles_of_model]. f_equal. f_equal.
-      unfold MI.opt_val. rewrite !C03_idler.idler_val_eq.
-      assert (Hs : sin (MI.b_theta (ib b)) = 0).
-      { unfold ib, MI.beam_new. cbn [MI.b_theta]. destruct Hc as [Hc | Hc]; rewrite Hc.
-        - unfold GI.beam_new_theta. replace (0 / 1) with 0 by field.
-          rewrite (rem_euclid_id 0 (2 * PI)) by (pose proof PI_RGT_0; lra).
-          destruct (Rgt_dec 0 PI); [pose proof PI_RGT_0; lra |]. rewrite Rmult_1_r. apply sin_0.
-        - unfold GI.beam_new_theta. replace (PI / 1) with PI by field.
-          rewrite (rem_euclid_id PI (2 * PI)) by (pose proof PI_RGT_0; lra).
-          destruct (Rgt_dec PI PI); [lra |]. rewrite Rmult_1_r. apply sin_PI. }
-      rewrite Hs. unfold Rdiv. rewrite !Rmult_0_r, !Rmult_0_l. reflexivity.
+    intros Hc. unfold ib, MI.beam_new. cbn [MI.b_theta]. destruct Hc as [Hc | Hc]; rewrite Hc.
+    - unfold GI.beam_new_theta. replace (0 / 1) with 0 by field.
+      rewrite (rem_euclid_id 0 (2 * PI)) by (pose proof PI_RGT_0; lra).
+      destruct (Rgt_dec 0 PI); [pose proof PI_RGT_0; lra |]. rewrite Rmult_1_r. apply sin_0.
+    - unfold GI.beam_new_theta. replace (PI / 1) with PI by field.
+      rewrite (rem_euclid_id PI (2 * PI)) by (pose proof PI_RGT_0; lra).
+      destruct (Rgt_dec PI PI); [lra |]. rewrite Rmult_1_r. apply sin_PI.
   Qed.
 
-  (* C20: optimising is idempotent for the composed instance -- no oracle hypothesis at all *)
+  Theorem optimum_contract_composed minpos s : idler_defined_before_and_after minpos s -> optimum_contract_at KM minpos s.
+  Proof.
+    intros Hdef. pose proof (opt_signal_collinear s) as Hc. split.
+    - intros th. cbn [o_snell_ext oracles_of_model]. unfold snell_ext_defined, snell_arg.
+      rewrite (collinear_sin _ Hc), !Rmult_0_r. reflexivity.
+    - intros cs pp nfp Hcp. destruct (Hdef cs pp nfp Hcp) as [D1 D2]. cbn [o_idler_theta oracles_of_model]. rewrite D1, D2.
+      f_equal. f_equal. unfold MI.opt_val. rewrite !C03_idler.idler_val_eq.
+      rewrite (ib_sin_collinear _ Hc). unfold Rdiv. rewrite !Rmult_0_r, !Rmult_0_l. reflexivity.
+  Qed.
+
+  (* C20: optimising is idempotent for the composed instance *)
   Theorem idempotent_composed minpos s s' nf :
+    idler_defined_before_and_after minpos s ->
     try_as_optimum_now KM minpos s = Ok (s', nf) -> try_as_optimum_now KM minpos s' = Ok (s', nf).
-  Proof. apply optimum_idempotent_now. apply collinear_contract_composed. Qed.
+  Proof. intros Hdef. apply optimum_idempotent_now_at. apply optimum_contract_composed. exact Hdef. Qed.
 
   (* ---- the auto poling period of the composed instance IS C04's optimum_poling_period *)
   Theorem period_composed s p cs :
     signal_le_pump R_ops s p = false ->
+    period_search_defined index_of sd_period s p cs = true ->
     match MA.optimum_poling_period (dkz_c index_of s p cs) MA.real_ops sd_period (cs_length cs) with
     | MA.AutoInfinite => optimum_poling_period R_ops KM GA.opp_min_period s p cs = Ok (inr tt)
     | MA.AutoErr => optimum_poling_period R_ops KM GA.opp_min_period s p cs = Err EImpossiblePeriod
     | MA.AutoOk v => optimum_poling_period R_ops KM GA.opp_min_period s p cs = Ok (inl v)
     end.
   Proof.
-    intros Hle. unfold optimum_poling_period, MA.optimum_poling_period. rewrite Hle.
-    cbn [o_dkz0 o_nm_period oracles_of_model neqb nltb R_ops]. rewrite n0_R.
+    intros Hle Hdef. unfold optimum_poling_period, MA.optimum_poling_period. rewrite Hle.
+    cbn [o_dkz0 o_nm_period oracles_of_model neqb nltb R_ops]. rewrite n0_R, Hdef.
     unfold GA.opp_perfect, MA.z0.
     destruct (Req_EM_T (dkz_c index_of s p cs MI.PPOff) 0) as [Hz | Hz]; [reflexivity |].
     unfold GA.opp_reject, GA.opp_max_period.
@@ -101,17 +180,28 @@ Section Composed.
     destruct (Rlt_dec (dkz_c index_of s p cs MI.PPOff) 0); ring.
   Qed.
 
+  (* an accepted automatic period: the search met no undefined cost, and the period is C04's *)
+  Lemma period_composed_ok s p cs v :
+    optimum_poling_period R_ops KM GA.opp_min_period s p cs = Ok (inl v) ->
+    MA.optimum_poling_period (dkz_c index_of s p cs) MA.real_ops sd_period (cs_length cs) = MA.AutoOk v.
+  Proof.
+    intros H. destruct (signal_le_pump R_ops s p) eqn:Hle.
+    - unfold optimum_poling_period in H. rewrite Hle in H. discriminate.
+    - destruct (period_search_defined index_of sd_period s p cs) eqn:Hdef.
+      + pose proof (period_composed s p cs Hle Hdef) as Hc.
+        destruct (MA.optimum_poling_period (dkz_c index_of s p cs) MA.real_ops sd_period (cs_length cs)); rewrite Hc in H; try discriminate.
+        inversion H. reflexivity.
+      + exfalso. revert H. unfold optimum_poling_period. rewrite Hle. cbn [o_dkz0 o_nm_period oracles_of_model]. rewrite Hdef.
+        destruct (neqb R_ops _ _); discriminate.
+  Qed.
+
   (* ... so an accepted automatic period obeys C04's sign-and-bound rule *)
   Theorem auto_period_sign_and_bound s p cs v :
-    signal_le_pump R_ops s p = false ->
     optimum_poling_period R_ops KM GA.opp_min_period s p cs = Ok (inl v) ->
     0 < Rabs v <= cs_length cs /\
     (0 < dkz_c index_of s p cs MI.PPOff -> 0 < v) /\ (dkz_c index_of s p cs MI.PPOff < 0 -> v < 0).
   Proof.
-    intros Hle H. pose proof (period_composed s p cs Hle) as Hc.
-    destruct (MA.optimum_poling_period (dkz_c index_of s p cs) MA.real_ops sd_period (cs_length cs)) as [| w |] eqn:Ho;
-      rewrite Hc in H; try discriminate.
-    inversion H. subst w.
+    intros H. pose proof (period_composed_ok s p cs v H) as Ho.
     destruct (C04_poling.sign_and_bound _ _ _ _ _ Ho) as (_ & _ & _ & Hb & Hp & Hn & _).
     repeat split; try apply Hb; assumption.
   Qed.
@@ -124,7 +214,9 @@ Section Composed.
       0 <= th <= PI / 2.
   Proof.
     unfold optimum_theta. cbn [o_snell_ext o_nm_theta oracles_of_model].
-    destruct (signal_le_pump R_ops s p); [discriminate |]. intros H. inversion H.
+    destruct (snell_ext_defined index_of s cs); [| discriminate].
+    destruct (signal_le_pump R_ops s p); [discriminate |].
+    destruct (theta_search_defined _ _ _ _ _ _ _); [| discriminate]. intros H. inversion H.
     eexists. split; [reflexivity |]. split; [reflexivity |]. apply C04_poling.theta_range.
   Qed.
 
@@ -141,18 +233,18 @@ Section Composed.
   Definition beam_wf (b : beam R) : Prop := 0 <= b_phi b < 2 * PI /\ - PI < b_theta b <= PI /\ 0 < b_wavelength b.
 
   Theorem idler_composed s p cs pp :
-    beam_wf s -> 0 < b_wavelength p ->
+    beam_wf s -> 0 < b_wavelength p -> idler_defined index_of s p cs (ipp pp) = true ->
     match MI.optimum_idler (index_of cs) (ipm (cs_pm cs)) (cs_counter cs) (ib s) (ipump p) (ipp pp) with
     | None => b_wavelength s <= b_wavelength p /\ idler_optimum R_ops KM s p cs pp = Err ESignalLePump
     | Some i => b_wavelength p < b_wavelength s /\ exists b, idler_optimum R_ops KM s p cs pp = Ok (b, []) /\ ib b = i
     end.
   Proof.
-    intros (Hphi & Hth & Hls) Hlp.
+    intros (Hphi & Hth & Hls) Hlp Hdef.
     assert (Els : MI.b_lambda (ib s) = b_wavelength s) by (apply C03_idler.sig_lambda; exact Hls).
     assert (Elp : MI.b_lambda (ipump p) = b_wavelength p) by (apply C03_idler.pump_lambda; exact Hlp).
     unfold MI.optimum_idler, idler_optimum, signal_le_pump. rewrite Els, Elp. unfold GI.idler_error_cond. cbn [nleb R_ops].
     destruct (Rle_dec (b_wavelength s) (b_wavelength p)) as [Hle | Hnle]; [split; [exact Hle | reflexivity] |].
-    split; [lra |]. cbn [o_idler_theta oracles_of_model]. eexists. split; [reflexivity |].
+    split; [lra |]. cbn [o_idler_theta oracles_of_model]. rewrite Hdef. eexists. split; [reflexivity |].
     unfold ib at 1. unfold beam_new. cbn [b_pol b_phi b_theta b_wavelength b_waist].
     set (th := GI.idler_theta _ _ _).
     unfold MI.beam_new. unfold GI.beam_new_direction.
@@ -187,17 +279,6 @@ Section Composed.
     rewrite Hphi_eq, Hth_eq, Hpol. reflexivity.
   Qed.
 
-  Lemma period_composed_ok s p cs v :
-    optimum_poling_period R_ops KM GA.opp_min_period s p cs = Ok (inl v) ->
-    MA.optimum_poling_period (dkz_c index_of s p cs) MA.real_ops sd_period (cs_length cs) = MA.AutoOk v.
-  Proof.
-    intros H. destruct (signal_le_pump R_ops s p) eqn:Hle.
-    - unfold optimum_poling_period in H. rewrite Hle in H. discriminate.
-    - pose proof (period_composed s p cs Hle) as Hc.
-      destruct (MA.optimum_poling_period (dkz_c index_of s p cs) MA.real_ops sd_period (cs_length cs)); rewrite Hc in H; try discriminate.
-      inversion H. reflexivity.
-  Qed.
-
   (* C16: each "auto" field of a converted configuration IS the value C03 / C04's models compute on the setup built so far *)
   Theorem auto_is_explicit_composed U rj c s nf :
     try_as_spdc_steps R_ops U KM GA.opp_min_period rj c = Ok (s, nf) ->
@@ -211,6 +292,7 @@ Section Composed.
                    (cs_length (cfg_cs0 R_ops c)) = MA.AutoOk v /\
                  s_pp s = poling_new R_ops v (apod_of_cfg R_ops a) /\ 0 < Rabs v <= cs_length (cfg_cs0 R_ops c)) /\
     (c_idler c = Auto -> beam_wf (s_signal s) -> 0 < b_wavelength (s_pump s) ->
+       idler_defined index_of (s_signal s) (s_pump s) (s_crystal s) (ipp (s_pp s)) = true ->
        exists i, MI.optimum_idler (index_of (s_crystal s)) (ipm (cs_pm (s_crystal s))) (cs_counter (s_crystal s))
                    (ib (s_signal s)) (ipump (s_pump s)) (ipp (s_pp s)) = Some i /\ ib (s_idler s) = i).
   Proof.
@@ -221,12 +303,21 @@ Section Composed.
     - intros a Ha Hnf. destruct (Hp a Ha) as [(per & Hper & Hpp) | (_ & Hin)]; [| contradiction].
       exists per. pose proof (period_composed_ok _ _ _ _ Hper) as Ho. split; [exact Ho |]. split; [exact Hpp |].
       destruct (C04_poling.sign_and_bound _ _ _ _ _ Ho) as (_ & _ & _ & Hb & _). exact Hb.
-    - intros Ha Hwf Hlp. destruct (Hi Ha) as (nfi & Hio).
-      pose proof (idler_composed (s_signal s) (s_pump s) (s_crystal s) (s_pp s) Hwf Hlp) as Hc.
+    - intros Ha Hwf Hlp Hdef. destruct (Hi Ha) as (nfi & Hio).
+      pose proof (idler_composed (s_signal s) (s_pump s) (s_crystal s) (s_pp s) Hwf Hlp Hdef) as Hc.
       destruct (MI.optimum_idler (index_of (s_crystal s)) (ipm (cs_pm (s_crystal s))) (cs_counter (s_crystal s))
                   (ib (s_signal s)) (ipump (s_pump s)) (ipp (s_pp s))) as [i0 |].
       + destruct Hc as (_ & b & Hb & Hib). rewrite Hb in Hio. inversion Hio. subst. exists (ib (s_idler s)). split; reflexivity.
       + destruct Hc as (_ & Hc). rewrite Hc in Hio. discriminate.
+  Qed.
+  (* C16: for a COLLINEAR finished signal the automatic crystal angle IS the explicit optimum call on the finished setup *)
+  Theorem auto_theta_final_composed U minpos rj c s nf :
+    try_as_spdc_steps R_ops U KM minpos rj c = Ok (s, nf) -> cc_theta_deg (c_crystal c) = Auto -> collinear (s_signal s) ->
+    optimum_theta R_ops KM (s_crystal s) (s_signal s) (s_pump s) = Ok (cs_theta (s_crystal s)).
+  Proof.
+    intros H Ha Hc. apply (auto_theta_is_final_optimum R R_ops U KM minpos rj c s nf H Ha).
+    intros th. cbn [o_snell_ext oracles_of_model]. unfold snell_ext_defined, snell_arg.
+    rewrite (collinear_sin _ Hc), !Rmult_0_r. reflexivity.
   Qed.
 End Composed.
 
